@@ -95,7 +95,11 @@ def run_impl(items, key, flavour, ops):
                     obs.append(("new", k, len(groups) - 1))
                 elif op[0] == "grp":
                     if op[1] < len(groups):
-                        obs.append(("item", await groups[op[1]].__anext__()))
+                        got = await groups[op[1]].__anext__()
+                        if builtins.any(got is x for x in items):
+                            obs.append(("item", got))
+                        else:
+                            obs.append(("error", "foreign-item", "a group handed out %s, which is not an item of the source" % type(got).__name__))
                     else:
                         obs.append(("stop",))
                 elif op[0] == "gclose":
